@@ -13,7 +13,8 @@
 (*   expect : (generated cases) the ring table TLC emitted with the case   *)
 (*   fdata  : [dims, vals, base] face-centred tracer base+i after get_dual *)
 (*   ndata  : [dims, vals, base] node-centred (time, n_node) tracer        *)
-(*   dual2, dual3 : the dual tables of the grids attached to those arrays  *)
+(*   dsdata : the same two tracers through UxDataset.get_dual              *)
+(*   dual2, dual3, dual4 : the dual tables of the grids attached to those  *)
 (* A verdict is the set of names of the clauses that are false, printed as *)
 (* <<"V", id, names>>; a ring failure also prints <<"S", id, diagnosis>>.  *)
 (***************************************************************************)
@@ -56,8 +57,14 @@ Clauses(r) ==
     NodeDataToFaces  |-> (cl /\ Has(r, "ndata")) =>
                             /\ r.ndata.dims = << "time", "n_face" >>
                             /\ r.ndata.vals = Tracer2(r.ndata.base, 2, nN),
+    DatasetDataSwapped |-> (cl /\ Has(r, "dsdata")) =>
+                            /\ r.dsdata.adims = << "n_node" >>
+                            /\ r.dsdata.avals = Tracer1(r.dsdata.base, Len(mesh))
+                            /\ r.dsdata.bdims = << "time", "n_face" >>
+                            /\ r.dsdata.bvals = Tracer2(r.dsdata.base, 2, nN),
     DataGridIsTheDual |-> /\ (Has(r, "dual2") => r.dual2 = D)
-                          /\ (Has(r, "dual3") => r.dual3 = D),
+                          /\ (Has(r, "dual3") => r.dual3 = D)
+                          /\ (Has(r, "dual4") => r.dual4 = D),
     StdTypes         |-> Has(r, "flags") => \A k \in DOMAIN r.flags : r.flags[k]
   ]
 
